@@ -436,9 +436,9 @@ pub fn matmul(
 
     #[cfg(not(feature = "blas"))]
     {
-        // if transposing both, use the identity A^T.B^T = (A.B)^T
+        // if transposing both, use the identity A^T.B^T = (B.A)^T
         if transpose_a && transpose_b {
-            return transpose(&matmul(a, b, rows_a, rows_b, false, false), cols_a);
+            return transpose(&matmul(b, a, rows_b, rows_a, false, false), rows_b);
         }
 
         let m = if transpose_a { cols_a } else { rows_a };
